@@ -7,7 +7,9 @@ decided here, on the real code):
   (c) 2-3 specification objects (discrete offline/online, dense offline/online) are driven in a random
       interleaving; each one's outputs must equal those of the same object driven alone (and of the model);
   (d) the same sub-stream is run in sub-processes under different PYTHONHASHSEED values and the printed
-      results must be identical.
+      results must be identical; the sub-stream includes call histories on discrete-time online monitors over 2-6 input
+      variables in which one update() is given a value that is not a number next to new values of the other variables, the
+      caller catches the exception and goes on with updates that leave variables out (`mk_failed_update_history`).
 """
 import copy, json, os, subprocess, sys
 from fractions import Fraction
@@ -16,7 +18,8 @@ from ..common import same_vals
 from ..engine import Violation, Ctx
 
 RULE = ("random specs of the four monitor kinds; data sets with lists shorter than bounds (padding paths), surplus variables; "
-        "interleavings of 2-3 objects with 1-10 calls each; hash seeds 0,1,2 (thorough: 16 seeds). distinct by (spec, data, "
+        "interleavings of 2-3 objects with 1-10 calls each; hash seeds 0,1,2 (thorough: 16 seeds) over a fingerprint that includes "
+        "online call histories with a rejected update (a value that is not a number) followed by partial updates. distinct by (spec, data, "
         "interleaving); non-trivial: at least one finite value and at least two calls.")
 EXPLANATION = ("theorems: C11_interleave (two model monitors in any interleaving return what they return alone), "
                "C11_offline_repeatable, C11_no_padding_when_long; the rest of C11 is decided by the correspondence stream on the "
@@ -379,6 +382,165 @@ def check_interleaving_dense(ctx, rng):
     return None
 
 
+FU_NAMES = ["a", "b", "c", "d", "e", "g", "h", "k", "m", "n", "p", "q", "r", "u", "v", "w", "x", "y", "z", "x1", "x2", "y1", "req", "gnt",
+            "speed", "temp", "err", "ref", "lhs", "rhs", "sig_a", "sig_b", "in_1", "in_2"]
+FU_BAD = ["n/a", "", None, [1.0], "1.0", {}]          # what a log column holds when a sample is missing / not converted
+FU_HISTORIES = 48                                      # histories in one fingerprint
+
+
+def fu_term(rng, names):
+    """A term that reads every variable of `names` exactly once (binary + and -, now and then abs / prev of a sub-term)."""
+    if len(names) == 1:
+        return names[0]
+    cut = rng.randint(1, len(names) - 1)
+    t = "(%s %s %s)" % (fu_term(rng, names[:cut]), rng.choice(["+", "+", "-"]), fu_term(rng, names[cut:]))
+    k = rng.random()
+    if k < 0.08:
+        return "abs(%s)" % t
+    if k < 0.14:
+        return "(prev %s)" % t
+    return t
+
+
+def mk_failed_update_history(rng):
+    """A call history of one discrete-time online monitor with 2-6 input variables: complete updates, then an update in which
+    one (seldom two) of the supplied values is not a number while the others are new valid values, then updates that leave
+    variables out (a variable that is left out keeps its last value); now and then a second update of that kind.  The values are
+    dyadic and the specification reads every variable, so which of the values of a call were stored shows in the results."""
+    k = rng.choice([2, 3, 4, 4, 4, 5, 6])
+    names = rng.sample(FU_NAMES, k)
+    shape = rng.random()
+    if shape < 0.45:
+        body = fu_term(rng, names)
+    elif shape < 0.7:
+        body = "(%s >= %s)" % (fu_term(rng, names), F.lit(rng.choice([0.0, 1.0, 4.0])))
+    elif shape < 0.85:
+        op = rng.choice(["once[0,%d]" % rng.randint(1, 3), "historically[0,%d]" % rng.randint(1, 3), "prev", "once", "historically"])
+        body = "(%s (%s >= %s))" % (op, fu_term(rng, names), F.lit(rng.choice([0.0, 1.0, 4.0])))
+    else:
+        cut = rng.randint(1, k - 1)
+        body = "((%s >= %s) %s (%s <= %s))" % (fu_term(rng, names[:cut]), F.lit(rng.choice([0.0, 1.0])), rng.choice(["and", "or", "since"]),
+                                               fu_term(rng, names[cut:]), F.lit(rng.choice([0.0, 2.0])))
+
+    def val():
+        return rng.choice([-1.0, 1.0]) * rng.randint(1, 256) / 4.0
+
+    def row(vs):
+        r = [[v, val()] for v in vs]
+        rng.shuffle(r)
+        if rng.random() < 0.1:
+            r.insert(rng.randint(0, len(r)), ["zz", 7.0])          # a column that is not an input of the specification
+        return r
+
+    def partial(must=()):
+        return row([v for v in names if v in must or rng.random() < 0.35])
+
+    def failing():
+        r = row([v for v in names if rng.random() < 0.9])
+        own = [e for e in r if e[0] in names]
+        for e in rng.sample(own, min(len(own), rng.choice([1, 1, 1, 2]))):
+            e[1] = copy.deepcopy(rng.choice(FU_BAD))
+        return r, [e[0] for e in own if not isinstance(e[1], float)]
+
+    calls = [row(names)]
+    for _ in range(rng.choice([0, 0, 1, 2])):
+        calls.append(partial() if rng.random() < 0.5 else row(names))
+    for rounds in range(rng.choice([1, 1, 1, 2])):
+        r, bad = failing()
+        calls.append(r)
+        # the variable whose value was not a number gets one in the next call (most of the time: otherwise what the monitor does
+        # with the value it was given goes on showing, which is a result as well)
+        calls.append(partial(bad if rng.random() < 0.8 else ()))
+        for _ in range(rng.choice([0, 1, 2, 3])):
+            calls.append(partial())
+    return {"spec": "out = " + body, "vars": names, "pastify": rng.random() < 0.3, "calls": calls}
+
+
+def run_failed_update_history(h):
+    """What the caller of the history sees: per call the value update() returned, or the fact that it raised (the kind of the
+    exception is not part of the result)."""
+    def go():
+        spec = impl.make_spec("ond", h["spec"], h["vars"])
+        spec.parse()
+        if h.get("pastify"):
+            spec.pastify()
+        trace = []
+        for t, dataset in enumerate(h["calls"]):
+            try:
+                trace.append(repr(spec.update(t, copy.deepcopy(dataset))))
+            except (impl.CaseTimeout, common.HarnessError, MemoryError):
+                raise
+            except Exception:
+                trace.append("raised")
+        return trace
+    o = impl.guarded(go)
+    return o[1] if o[0] == "ok" else list(o[:2])
+
+
+def fu_reductions(h):
+    """One-step reductions of a history: a call dropped, an entry of a call dropped, a value replaced by 1.0."""
+    out = []
+    for i in range(len(h["calls"])):
+        if len(h["calls"]) > 1:
+            out.append(dict(h, calls=h["calls"][:i] + h["calls"][i + 1:]))
+    for i, c in enumerate(h["calls"]):
+        for j in range(len(c)):
+            out.append(dict(h, calls=h["calls"][:i] + [c[:j] + c[j + 1:]] + h["calls"][i + 1:]))
+    if h.get("pastify"):
+        out.append(dict(h, pastify=False))
+    for i, c in enumerate(h["calls"]):
+        for j, e in enumerate(c):
+            if isinstance(e[1], float) and e[1] != 1.0:
+                out.append(dict(h, calls=h["calls"][:i] + [c[:j] + [[e[0], 1.0]] + c[j + 1:]] + h["calls"][i + 1:]))
+    return out
+
+
+def histories_under(hs, histories):
+    """The traces of `histories` in a fresh interpreter with PYTHONHASHSEED=hs."""
+    prog = ("import sys, json; sys.path.insert(0, %r); sys.path.insert(0, %r)\n"
+            "from harness.props import c11\n"
+            "print(json.dumps([c11.run_failed_update_history(h) for h in json.loads(sys.stdin.read())]))\n") % (common.VERIF, common.REPO)
+    env = dict(os.environ, PYTHONHASHSEED=str(hs), PYTHONPATH=common.VERIF + ":" + common.REPO)
+    p = subprocess.run([common.PY, "-c", prog], input=json.dumps(histories), stdout=subprocess.PIPE, stderr=subprocess.PIPE, text=True,
+                       env=env, timeout=600)
+    if p.returncode != 0:
+        raise common.HarnessError("hash-seed sub-process failed: " + p.stderr[-500:])
+    return json.loads(p.stdout.strip().split("\n")[-1])
+
+
+def shrink_history(h, sa, sb, rounds=25):
+    """Greedy: the first one-step reduction on which the two hash seeds still disagree, until none does."""
+    for _ in range(rounds):
+        cands = fu_reductions(h)
+        if not cands:
+            break
+        ta, tb = histories_under(sa, cands), histories_under(sb, cands)
+        nxt = next((c for c, x, y in zip(cands, ta, tb) if x != y), None)
+        if nxt is None:
+            break
+        h = nxt
+    return h
+
+
+def history_violation(ctx, h, seeds, verif_seed, shrink=True):
+    """`h` under the hash seeds `seeds` (each in its own interpreter): a Violation if two of them disagree."""
+    traces = [histories_under(hs, [h])[0] for hs in seeds]
+    ctx.evaluations += len(seeds)
+    d = next((i for i in range(len(seeds)) if traces[i] != traces[0]), None)
+    if d is None:
+        return None
+    sa, sb = seeds[0], seeds[d]
+    if shrink:
+        h = shrink_history(h, sa, sb)
+        traces = [histories_under(sa, [h])[0], histories_under(sb, [h])[0]]
+        d = 1
+    rep = {"kind": "hashseed-history", "history": h, "seed_a": sa, "seed_b": sb, "verif_seed": verif_seed,
+           "results": {str(sa): traces[0], str(sb): traces[d]}}
+    return Violation("results depend on PYTHONHASHSEED: %s, variables %s, update() calls at times 0.. with %r (the caller catches what a "
+                     "call raises and goes on): seed %d gives %r, seed %d gives %r"
+                     % (h["spec"], h["vars"], h["calls"], sa, traces[0], sb, traces[d]), rep, stream="pure/hashseed-history")
+
+
 def hashseed_sweep(ctx):
     """Run a fixed sub-stream in sub-processes under different hash seeds; outputs must be identical."""
     seeds = [0, 1, 2] if ctx.tier == "quick" else list(range(16))
@@ -394,10 +556,15 @@ def hashseed_sweep(ctx):
         outs.append(p.stdout.strip().split("\n")[-1])
         ctx.evaluations += 1
         ctx.count("hashseed")
+        ctx.count("hashseed/failed-update-history", FU_HISTORIES)
     for hs, o in zip(seeds, outs):
         if o != outs[0]:
             a, b = json.loads(outs[0]), json.loads(o)
             k = next(i for i in range(len(a)) if a[i] != b[i])
+            if a[k][0] == "failed-update":
+                v = history_violation(ctx, a[k][1], [seeds[0], hs], ctx.seed)
+                if v is not None:
+                    return v
             return Violation("results depend on PYTHONHASHSEED: seed %d gives %r, seed %d gives %r" % (seeds[0], a[k], hs, b[k]),
                              {"kind": "hashseed", "seed_a": seeds[0], "seed_b": hs, "verif_seed": ctx.seed, "first_difference": [a[k], b[k]]},
                              stream="pure/hashseed")
@@ -429,6 +596,11 @@ def fingerprint(seed):
         c = mk_dense_offline(rng)
         t, o = D.eval_offline(c["f"], c["sig"])
         res.append([t, repr(o[1]) if o[0] == "ok" else list(o[:2])])
+    # (last, with a generator of their own: the cases above are the same as before)
+    rng = random.Random("c11-fp-fu-%d" % seed)
+    for _ in range(FU_HISTORIES):
+        h = mk_failed_update_history(rng)
+        res.append(["failed-update", h, run_failed_update_history(h)])
     return res
 
 
@@ -546,6 +718,10 @@ def replay(ctx, obj):
     if obj["kind"] == "period-units":
         v = period_units_case(scratch, obj["op"], obj["k"], obj["c0"], obj["period_number"], [float(t) for t in obj["x"]], tuple(obj["order"]))
         return (v is None), (v.what if v else "the two objects do not influence each other")
+    if obj["kind"] == "hashseed-history":
+        seeds = [obj["seed_a"], obj["seed_b"]] + [x for x in (0, 1, 2, 3, 4, 5) if x not in (obj["seed_a"], obj["seed_b"])]
+        v = history_violation(scratch, obj["history"], seeds, obj.get("verif_seed", 0), shrink=False)
+        return (v is None), (v.what if v else "the history gives the same results under the hash seeds %r" % seeds)
     if obj["kind"] == "failed-between":
         v = check_failed_between(scratch, None, fixed=obj)
         return (v is None), (v.what if v else "the object behaves like a fresh one after the failed evaluate()")
@@ -576,7 +752,7 @@ def run(ctx):
         v = hashseed_sweep(ctx)
         if v:
             ctx.violations.append(v)
-        ctx.sample({"hash_seeds": [0, 1, 2] if ctx.tier == "quick" else list(range(16)), "fingerprint_cases": 100})
+        ctx.sample({"hash_seeds": [0, 1, 2] if ctx.tier == "quick" else list(range(16)), "fingerprint_cases": 100 + FU_HISTORIES})
 
 
 def search(ctx):
